@@ -5,9 +5,9 @@
  3. runs flytvc for the property (and optionally every property) against the scratch copy with the change"""
 import sys, os, shutil, subprocess, tempfile, json, re, glob
 ENV = dict(os.environ, GOFLAGS='-mod=mod', GOPROXY='off', GOSUMDB='off', GOTOOLCHAIN='local')
-pid = sys.argv[1]; allp = '--all-props' in sys.argv; norep = '--no-replay' in sys.argv
-src = f'/tmp/wt/{pid}/_seed' if os.path.isdir(f'/tmp/wt/{pid}/_seed') else f'/verif/seeded/{pid.lower()}-agent'
-name = f'{pid.lower()}-agent'
+arg = sys.argv[1]; pid = arg[:3]; allp = '--all-props' in sys.argv; norep = '--no-replay' in sys.argv
+src = f'/tmp/wt/{arg}/_seed' if os.path.isdir(f'/tmp/wt/{arg}/_seed') else f'/verif/seeded/{arg.lower()}-agent'
+name = f'{arg.lower()}-agent'
 dst = f'/verif/seeded/{name}'
 if src != dst:
     os.makedirs(dst, exist_ok=True)
